@@ -258,7 +258,9 @@ def run(ctx, replay):
         f_s3 = pre.submit(ctx.tlc_check, "HTTPProto", "HTTPProto.cfg", {"Blobs": "{2, 4, 6, 8}", "MaxCursor": 9, "MaxStat": 3}, 8, 1800)
         f_mut4 = pre.submit(ctx.tlc_gen, "BlobStoreGen", "BlobStoreGen.cfg", {"Depth": 4})
     mut, sim = f_mut.result(), f_sim.result()
-    f_s1.result()
+    r1 = f_s1.result()
+    if r1.get("zero_actions"):
+        raise vlib.MachineryError("HTTPProto: actions never taken in the exhaustive run (vacuous model): %s" % r1["zero_actions"])
     f_s2.result()
     mutf, simf = ctx.path("mut.jsonl"), ctx.path("sim.jsonl")
     vlib.write_jsonl(mutf, mut)
@@ -278,7 +280,7 @@ def run(ctx, replay):
     def jobs_for(k, cfg):
         slow = cfg == ("diskpacked", "sqlite")      # one server per history there (no side-door removal)
         if quick:
-            ms, ss, rn = (96, 16, 6) if slow else (24, 4, 20)
+            ms, ss, rn = (128, 24, 5) if slow else (32, 6, 16)
         else:
             ms, ss, rn = (32, 32, 30) if slow else (2, 8, 150)
         jobs = {
@@ -292,29 +294,32 @@ def run(ctx, replay):
             jobs["mut4"] = {"leg": "mut", "hist": mut4f, "observe": True, "stride": 64 * (4 if slow else 1), "offset": k, "n": 4}
         return jobs
 
-    def work(kc):
-        k, cfg = kc
-        return cfg, R.run_cfg(cfg, jobs_for(k, cfg), ctx.seed, "main")
-    with ThreadPoolExecutor(max_workers=10) as ex:
-        for cfg, (h, e) in ex.map(work, list(enumerate(CFGS))):
-            R.total_h += h
-            R.total_e += e
     # a universe larger than pkg/client's page size (1000) and, in the thorough tier, than the server's enumerate
     # cap (10000): blobs injected behind the server's back, read through both clients
     hn = 1100 if quick else 10050
-    h, e = R.run_cfg(("memory", "memory"), {"big": {"univ": "tiny", "n": hn, "direct": 1}}, ctx.seed, "huge", bign=hn)
-    R.total_h += h
-    R.total_e += e
+
+    def work(kc):
+        k, cfg = kc
+        if k < 0:
+            return cfg, R.run_cfg(cfg, {"big": {"univ": "tiny", "n": hn, "direct": 1}}, ctx.seed, "huge", bign=hn)
+        return cfg, R.run_cfg(cfg, jobs_for(k, cfg), ctx.seed, "main")
+    with ThreadPoolExecutor(max_workers=12) as ex:
+        for cfg, (h, e) in ex.map(work, list(enumerate(CFGS)) + [(-1, ("memory", "memory"))]):
+            R.total_h += h
+            R.total_e += e
     ctx.count("G", replayed_histories=R.total_h, events=R.total_e, configurations=len(CFGS))
     ctx.cov["traces_validated_against_impl"] = R.total_h
     ctx.cov["evaluations"] = R.total_e
     ctx.cov["exhaustive"] = False
-    ctx.cov["rule"] = ("histories: all %d mutator sequences of length %d over 4 blobs (TLC BFS, spread over the 16 configurations, every "
-                       "history on at least one configuration through both clients) with a full observation after each step, %d "
-                       "simulated histories of length 40, seeded random Go histories with wire extras, a fixed wire-level script "
-                       "(stat 1/999/1000/1001, threshold sizes, limit x maxwaitsec x after) and a 260-blob universe per configuration; "
-                       "16 high-level configurations x {pkg/client, raw net/http}; distinct = configuration x client x op x input class "
-                       "x reply class actually observed" % (len(mut), depth, len(sim)))
+    ms0 = jobs_for(0, CFGS[0])["mut"]["stride"]
+    covered = len([h for h in range(len(mut)) if any(h % ms0 == k % ms0 for k in range(len(CFGS)))])
+    ctx.cov["rule"] = ("histories: the %d mutator sequences of length %d over 4 blobs enumerated by TLC (BFS) are spread over the 16 "
+                       "configurations with stride %d (%d of them replayed in this tier, each through both clients, with a full observation "
+                       "after every step), %d simulated histories of length 40 (strided likewise), seeded random Go histories with wire "
+                       "extras, a fixed wire-level script (stat 1/999/1000/1001, threshold sizes, limit x maxwaitsec x after), a 260-blob "
+                       "universe per configuration and a %d-blob universe on memory+memory; 16 high-level configurations x {pkg/client, raw "
+                       "net/http}; distinct = configuration x client x op x input class x reply class actually observed"
+                       % (len(mut), depth, ms0, covered, len(sim), hn))
     ctx.assumptions += [
         "the server is the one serverinit.Load builds from the high-level configuration; one extra prefix (/verif-sidedoor/) is added to "
         "the generated prefix table before InstallHandlers so that the harness can reach the storage behind /bs/ (cleanup between "
